@@ -250,7 +250,7 @@ def build_system(progs, T, unstarted_child, budgets, actions):
 def load_progs():
     rt = P.parse_file(common.mir_dump("dora-runtime"), common.REPO)
     cmp_ = P.parse_file(common.mir_dump("dora-compiler"), common.REPO)
-    drv = P.parse_file(common.drivers_mir_dump(), os.path.join(common.VERIF, "engines", "drivers"))
+    drv = P.parse_file(common.drivers_mir_dump(), os.path.join(common.WORK, "drivers-src"))
     for need in ("stop_the_world", "safepoint_slow", "DoraThread::park", "DoraThread::unpark", "Threads::remove_current_thread",
                  "Barrier::wait_in_safepoint", "parked_scope"):
         if rt.find(need) is None:
@@ -289,13 +289,13 @@ def run_config(progs, cfg, tmo, deadline, qjobs=3):
 ALL = (1, 2, 3, 4)
 CONFIGS = {
     "quick": [
-        {"name": "2thr-1action", "T": 2, "child": False, "budgets": [1, 1], "actions": (1, 2, 3), "K": 80},
+        {"name": "2thr-1action", "T": 2, "child": False, "budgets": [1, 1], "actions": (1, 2, 3), "K": 60},
     ],
     "thorough": [
-        {"name": "2thr-1action", "T": 2, "child": False, "budgets": [1, 1], "actions": (1, 2, 3), "K": 80},
-        {"name": "2thr-2actions", "T": 2, "child": False, "budgets": [2, 2], "actions": (1, 2, 3), "K": 130},
-        {"name": "2thr+spawn", "T": 3, "child": True, "budgets": [1, 1, 1], "actions": ALL, "K": 110},
-        {"name": "3thr-1action", "T": 3, "child": False, "budgets": [1, 1, 1], "actions": (1, 2, 3), "K": 110},
+        {"name": "2thr-1action", "T": 2, "child": False, "budgets": [1, 1], "actions": (1, 2, 3), "K": 60},
+        {"name": "2thr-2actions", "T": 2, "child": False, "budgets": [2, 2], "actions": (1, 2, 3), "K": 95},
+        {"name": "2thr+spawn", "T": 3, "child": True, "budgets": [1, 1, 1], "actions": ALL, "K": 85},
+        {"name": "3thr-1action", "T": 3, "child": False, "budgets": [1, 1, 1], "actions": (1, 2, 3), "K": 85},
     ],
 }
 
@@ -312,8 +312,8 @@ def main(tier):
     t0 = time.time()
     progs = load_progs()
     rep = common.Reporter(PID)
-    tmo = 400 if tier == "quick" else 1800
-    deadline = t0 + (1200 if tier == "quick" else 3300)
+    tmo = 900 if tier == "quick" else 2400
+    deadline = t0 + (1500 if tier == "quick" else 3300)
     cfgs = CONFIGS[tier]
     results = list(common.fork_map(_cfg_worker, [(progs, c, tmo, deadline) for c in cfgs], min(len(cfgs), 4)))
     if "inconclusive" in results[0]:
